@@ -24,6 +24,86 @@ def _events(j, o):
     return [{"a": "Tables", "tables": o["tables"]}]
 
 
+TYPED_CELL = {"n": ["n", 7], "nf": ["n", 1.5], "b": ["b", 1], "d": ["d", "2024-01-02T03:04:05"],
+              "date": ["date", "2024-01-02"], "t": ["t", "03:04:05"], "e": ["e", "#DIV/0!"], "f": ["f", "A1+1", 2.5],
+              "s": ["s", 9], "empty": None}
+
+
+def _typed_obs(v):
+    """Observed typed cell -> record for Doc!TypedAcceptable (projection only)."""
+    from ..docmodel import project_text
+    base = {"k": "other", "n2": 0, "b": False, "s": "", "v": []}
+    if v is None or v == "":
+        return dict(base, k="ids")
+    if isinstance(v, bool):
+        return dict(base, k="bool", b=v)
+    if isinstance(v, (int, float)):
+        return dict(base, k="num", n2=int(v * 2)) if float(v * 2).is_integer() and abs(v) < 10**6 else dict(base, s=repr(v)[:40])
+    if isinstance(v, str):
+        ids = project_text(v)["ids"]
+        return dict(base, k="ids", v=ids) if ids else dict(base, k="str", s=v[:60])
+    return dict(base, s=f"{type(v).__name__}:{v!r}"[:60])
+
+
+def _typed_job(job):
+    import io
+    from ..docrun import EXTRACTOR, render
+    from ..repo import activate
+    activate()
+    import warnings
+    warnings.simplefilter("ignore")
+    import sharepoint2text
+    kinds, fmt = job
+    row = [TYPED_CELL[k] for k in kinds]
+    if fmt == "ods":
+        row = [None if (c and c[0] in ("e", "f")) else c for c in row]
+    book = {"kind": "book", "sheets": [{"name": "T", "rows": [[["s", 1], ["s", 2]], row]}]}
+    try:
+        r = next(getattr(sharepoint2text, EXTRACTOR[fmt])(io.BytesIO(render(book, fmt)), "t." + fmt))
+        tables = [t.get_table() for t in r.iterate_tables()]
+    except Exception as e:
+        return {"exc": f"{type(e).__name__}: {e}"[:200]}
+    if len(tables) != 1 or len(tables[0]) < 1:
+        return {"exc": f"tables: {tables!r}"[:200]}
+    data = tables[0][1] if len(tables[0]) > 1 else []
+    return {"row": [_typed_obs(c) for c in data], "raw": repr(data)[:200]}
+
+
+def typed_values(ctx):
+    """Typed spreadsheet values (numbers, booleans, dates, times, errors, formula results) keep their value."""
+    from concurrent.futures import ProcessPoolExecutor
+    from ..docsuite import gen_units, trace_cfg
+    from ..traces import validate
+    rows = gen_units(ctx, "typed", 1)
+    jobs = []
+    for u in rows:
+        kinds = [str(k) for k in u[0]]
+        for fmt in ("xlsx", "ods"):
+            eff = ["empty" if (fmt == "ods" and k in ("e", "f")) else k for k in kinds]
+            jobs.append((kinds, fmt, eff))
+    with ProcessPoolExecutor(16) as ex:
+        obs = list(ex.map(_typed_job, [(k, f) for k, f, _ in jobs]))
+    traces = []
+    for (kinds, fmt, eff), o in zip(jobs, obs):
+        if "exc" in o:
+            ctx.v.violation(what=f"{fmt}: typed row {kinds} could not be read back: {o['exc']}", case={"kinds": kinds, "fmt": fmt})
+            continue
+        traces.append({"id": f"typed:{fmt}:{'/'.join(kinds)}", "hdr": {"fmt": fmt, "doc": {"units": [], "header": [], "footer": []}},
+                       "raw": o["raw"], "ev": [{"a": "Typed", "kinds": eff, "row": o["row"]}]})
+    br = validate("DocTrace", trace_cfg(set()), traces, scratch=ctx.scratch, parallel=8, min_chunk=50)
+    ctx.ev.tlc_counts("DocTrace: typed sheet rows validated", br.distinct, br.states, br.wall_s)
+    for t, tv in zip(traces, br.verdicts):
+        if tv.accepted:
+            ctx.v.ok()
+            ctx.ev.nontrivial(t["id"])
+        else:
+            ctx.v.violation(what=f"typed spreadsheet values changed: {t['id']} -> observed data row {t['raw']}",
+                            case={"trace": t["id"], "event": t["ev"][0]}, where="xlsx_extractor/ods_extractor cell value handling")
+    ctx.ev.replayed(len(traces))
+    if traces:
+        ctx.ev.sample({"typed_row": traces[len(traces) // 2]["id"], "observed": traces[len(traces) // 2]["raw"]})
+
+
 def run(ctx):
     ev = ctx.ev
     rng = random.Random(ctx.seed)
@@ -47,6 +127,7 @@ def run(ctx):
     validate_with_findings(ctx, "DocTrace", traces, FINDING_DEV, describe,
                            lambda t: f"{t['hdr']['fmt']} table walker")
     ev.replayed(len(traces))
+    typed_values(ctx)
     ev.set(rule="same TLC-enumerated document suite as C02: tables 1..2 x 1..2 with plain / two-paragraph / empty / "
                 "nested-table cells, in lists, content controls and text boxes, on slides; sheets up to 3x3 with empty "
                 "cells; non-trivial = at least one table observed",
